@@ -158,7 +158,12 @@ impl ast::Visit for Visitor<'_, '_> {
                 }
             },
 
-            ast::StmtKind::CallSub { .. } => unimplemented!("need to check arg types against signature"),
+            ast::StmtKind::CallSub { .. } => {
+                self.errors.set(self.ctx.emitter.emit(error!(
+                    message("feature not implemented"),
+                    primary(stmt, "'@' and 'async' call syntax is reserved for future use"),
+                )));
+            },
 
             ast::StmtKind::Block { .. } => ast::walk_stmt(self, stmt),
             ast::StmtKind::InterruptLabel { .. } => {},
